@@ -10,7 +10,8 @@ import stages
 
 def alphabet(n):
     return ([("it", 0), ("it", 1), ("it", 2), ("it", -1)] + [("nth", i) for i in range(n + 1)]
-            + [("seek", k) for k in range(n + 1)] + [("count",)])
+            + [("seek", k) for k in range(n + 1)] + [("count",)]
+            + [("skiptake", 0, 2), ("skiptake", 1, 1), ("skiptake", n, 1)])      # iterator adaptors skip(k).take(j)
 
 
 def run(rep, tier, rng):
@@ -27,6 +28,10 @@ def run(rep, tier, rng):
             recs.append({"num": i + 1, "shape": {"code": 8, "box": [1, 2, 3, 4], "pts": pts}})
         return {"type": 8, "box": [0] * 8, "records": recs}
     models = [mk([1, 2, 3]), mk([2, 2, 2])]
+    # a third file with a null-shape record in the middle (read with the generic reader only)
+    withnull = mk([2, 1, 3])
+    withnull["records"][1]["shape"] = {"code": 0}
+    models.append(withnull)
     alpha = alphabet(n)
     hists = [list(t) for k in range(1, L + 1) for t in itertools.product(alpha, repeat=k)]
     extra = 400 if tier == "thorough" else 60
@@ -41,12 +46,12 @@ def run(rep, tier, rng):
         items = [("ok", refesri.denote(r["shape"])) for r in m["records"]]
         for h in hists:
             ops = h + [("it", -1)]          # every history ends with an iteration, observed too
-            cases.append(C.read_case(-1 if len(h) % 2 else 8, shp, shx, ops))
+            cases.append(C.read_case(-1 if (len(h) % 2 or mi == 2) else 8, shp, shx, ops))
             meta.append((items, ops, mi))
     rep.cov["rule"] = ("exhaustive histories over {iterate 0/1/2/all items, random access at 0..n, seek 0..n, shape count} up to "
                        "length %d (quick: all of length <= 2, a rotating third of length 3) plus %d longer random ones, each "
-                       "followed by a full iteration, on a file of n = 3 records of pairwise different sizes and on one of equal "
-                       "sizes, with index, generic and typed reader alternating; oracle: abstract reader (records, next position); "
+                       "followed by a full iteration, on a file of n = 3 records of pairwise different sizes, on one of equal "
+                       "sizes and on one with a null-shape record in the middle, iterator adaptors skip/take included, with index, generic and typed reader alternating; oracle: abstract reader (records, next position); "
                        "non-trivial = distinct case" % (L, extra))
     rep.cov["exhaustive"] = tier == "thorough"
     impl = stages.correspondence(rep, "read", dev, cases, "read(call histories)", vm_sample=60)
@@ -58,7 +63,7 @@ def run(rep, tier, rng):
             nfail += 1
             if nfail == 1:
                 rep.violation({"kind": "oracle", "what": msg, "case_kind": "read", "case": c, "ops": ops,
-                               "file": "different sizes" if mi == 0 else "equal sizes"})
+                               "file": ["different sizes", "equal sizes", "null record in the middle"][mi]})
     rep.sample({"ops": meta[40][1]})
     rep.cov["oracle"] = {"checked": len(cases), "failing": nfail}
     rep.assumptions += ["the complete Reader (shape + attribute row pairs follow the same positions) is exercised by C08's pair "
